@@ -2,10 +2,13 @@ package chain
 
 import (
 	"bytes"
+	"encoding/base64"
+	"encoding/hex"
 	"encoding/json"
 	"fmt"
 	"sort"
 	"strconv"
+	"strings"
 
 	"github.com/pokt-network/posmint/crypto"
 	sdk "github.com/pokt-network/posmint/types"
@@ -132,9 +135,70 @@ func CanonicalSignBytes(chainID string, entropy int64, fee sdk.Coins, msg sdk.Ms
 		b.WriteString(`{"amount":"` + c.Amount.String() + `","denom":` + js(c.Denom) + `}`)
 	}
 	b.WriteString(`],"memo":` + js(memo) + `,"msg":`)
-	b.Write(msg.GetSignBytes())
+	b.Write(MsgSignJSON(msg))
 	b.WriteString(`}`)
 	return b.Bytes()
+}
+
+// MsgSignJSON is the harness's own rendering of the documented sign bytes of a message: the amino
+// JSON form {"type": <registered name>, "value": {fields}} with object keys sorted, written field by
+// field from the message structs (addresses as lower-case hex, integers as decimal strings, byte
+// slices as base64, public keys as {"type","value": hex}). It does not call the message's
+// GetSignBytes, so a message that leaves a field out of its own sign bytes is noticed. Message
+// types it does not know fall back to GetSignBytes.
+func MsgSignJSON(msg sdk.Msg) []byte {
+	q := func(s string) string { b, _ := json.Marshal(s); return string(b) }
+	addr := func(a sdk.Address) string { return q(hex.EncodeToString(a)) }
+	num := func(i sdk.Int) string { return q(i.String()) }
+	var pk func(k crypto.PublicKey) (string, bool)
+	pk = func(k crypto.PublicKey) (string, bool) {
+		switch t := k.(type) {
+		case crypto.Ed25519PublicKey:
+			return `{"type":"crypto/ed25519_public_key","value":` + q(hex.EncodeToString(t.RawBytes())) + `}`, true
+		case crypto.Secp256k1PublicKey:
+			return `{"type":"crypto/secp256k1_public_key","value":` + q(hex.EncodeToString(t.RawBytes())) + `}`, true
+		case crypto.PublicKeyMultiSignature:
+			parts := []string{}
+			for _, sub := range t.PublicKeys {
+				s, ok := pk(sub)
+				if !ok {
+					return "", false
+				}
+				parts = append(parts, s)
+			}
+			keys := "null"
+			if t.PublicKeys != nil {
+				keys = "[" + strings.Join(parts, ",") + "]"
+			}
+			return `{"type":"crypto/public_key_multi_signature","value":{"keys":` + keys + `}}`, true
+		}
+		return "", false
+	}
+	bz := func(b []byte) string {
+		if b == nil {
+			return "null"
+		}
+		return q(base64.StdEncoding.EncodeToString(b))
+	}
+	switch m := msg.(type) {
+	case posTypes.MsgSend:
+		return []byte(`{"type":"pos/Send","value":{"Amount":` + num(m.Amount) + `,"FromAddress":` + addr(m.FromAddress) + `,"ToAddress":` + addr(m.ToAddress) + `}}`)
+	case posTypes.MsgStake:
+		if k, ok := pk(m.PubKey); ok {
+			return []byte(`{"type":"pos/MsgStake","value":{"pubkey":` + k + `,"value":` + num(m.Value) + `}}`)
+		}
+	case posTypes.MsgBeginUnstake:
+		return []byte(`{"type":"pos/MsgBeginUnstake","value":{"validator_address":` + addr(m.Address) + `}}`)
+	case posTypes.MsgUnjail:
+		return []byte(`{"type":"pos/MsgUnjail","value":{"address":` + addr(m.ValidatorAddr) + `}}`)
+	case govTypes.MsgChangeParam:
+		return []byte(`{"type":"gov/msg_change_param","value":{"address":` + addr(m.FromAddress) + `,"param_key":` + q(m.ParamKey) + `,"param_value":` + bz(m.ParamVal) + `}}`)
+	case govTypes.MsgDAOTransfer:
+		return []byte(`{"type":"gov/msg_dao_transfer","value":{"action":` + q(m.Action) + `,"amount":` + num(m.Amount) + `,"from_address":` + addr(m.FromAddress) + `,"to_address":` + addr(m.ToAddress) + `}}`)
+	case govTypes.MsgUpgrade:
+		return []byte(`{"type":"gov/msg_upgrade","value":{"address":` + addr(m.Address) + `,"upgrade":{"Height":` + q(strconv.FormatInt(m.Upgrade.Height, 10)) + `,"Version":` + q(m.Upgrade.Version) + `}}}`)
+	}
+	return msg.GetSignBytes()
 }
 
 // SignTx signs and encodes.
